@@ -61,7 +61,7 @@ class Build:
         k = self.key(wrapper, defs) + ('-san' if san else '')
         if k not in self.so:
             out = os.path.join(self.dir, k + '.so')
-            cmd = ['g++'] + CXXFLAGS + ['-DVERIF_NATIVE', '-shared', '-fPIC', '-w'] + ['-D' + d for d in defs]
+            cmd = ['g++'] + CXXFLAGS + ['-DVERIF_NATIVE', '-shared', '-fPIC', '-w', '-Wl,-Bsymbolic'] + ['-D' + d for d in defs]
             if san: cmd += ['-fsanitize=address,undefined', '-fno-sanitize-recover=undefined', '-fno-omit-frame-pointer', '-g1']
             cmd += [os.path.join(ROOT, 'wrappers', wrapper + '.cpp'), '-o', out, '-lz', '-lbz2', '-lexpat', '-lpthread']
             r = subprocess.run(cmd, capture_output=True, text=True)
